@@ -135,7 +135,14 @@ class BBAN(common.Base):
                 f"Account code exceeds maximum size {account_code_length}"
             )
 
-        checksum = compute_national_checksum(country_code, components)
+        try:
+            checksum = compute_national_checksum(country_code, components)
+        except exceptions.SchwiftyException:
+            raise
+        except (ValueError, LookupError) as e:
+            raise exceptions.InvalidStructure(
+                f"Invalid characters in the BBAN components for {country_code}"
+            ) from e
         if checksum:
             components[Component.NATIONAL_CHECKSUM_DIGITS] = checksum
 
